@@ -252,7 +252,7 @@ fn %(name)s() {
         match m { Some(t) => (t.done, t.error.is_some(), t.pending_host_func.is_some(), any_pending, any_runnable), None => (false, false, false, any_pending, any_runnable) }
     };
     let kind_code = |k: &RuntimeStatusKind| -> u8 { match k { RuntimeStatusKind::Done => 0, RuntimeStatusKind::PendingHostFunc => 1, RuntimeStatusKind::OutOfSteps => 2, RuntimeStatusKind::MainThreadError(_) => 3 } };
-    let run = |budgets: &Vec<u32>, check: bool| -> (u8, u32, bool, bool, bool, Vec<u32>) {
+    let run = |budgets: &Vec<u32>, check: bool| -> (u8, u32, bool, bool, bool, Vec<u32>, Vec<(usize, u32)>) {
         let (mut rt, _keep) = build();
         let mut code = 2u8;
         let mut consumed = 0u32;
@@ -279,14 +279,35 @@ fn %(name)s() {
             if !check && code != 2 { break; }
         }
         let (d, e, p, _, _) = observe(&rt);
-        (code, consumed, d, e, p, per_call)
+        // steps_consumed must equal the number of instructions executed: every scripted instruction advances its thread's pc by
+        // one, so the pcs of the threads that still exist give the count (only when no task can have finished and been discarded)
+        let no_task_finishes = scripts.iter().skip(1).all(|sc| !sc.contains(&1));
+        if check && no_task_finishes {
+            let mut executed: u32 = 0;
+            for t in rt.run_queue.iter().map(|b| b.as_ref()).chain(rt.finished_main_thread.iter().map(|b| b.as_ref())) {
+                let region = (t.pc.0 as usize) / len;
+                executed += t.pc.0 - (region * len) as u32;
+            }
+            println!("instructions executed (from the pcs) {} steps_consumed (sum) {}", executed, consumed);
+            assert!(executed == consumed, "steps_consumed differs from the number of instructions executed");
+        }
+        // per-thread progress (which thread executed how many instructions), from the pcs of the threads that still exist
+        let mut progress: Vec<(usize, u32)> = Vec::new();
+        for t in rt.run_queue.iter().map(|b| b.as_ref()).chain(rt.finished_main_thread.iter().map(|b| b.as_ref())) {
+            let region = (t.pc.0 as usize) / len;
+            progress.push((region, t.pc.0 - (region * len) as u32));
+        }
+        progress.sort();
+        (code, consumed, d, e, p, per_call, progress)
     };
     let a = run(&budgets_a, budgets_b.is_empty());
     if !budgets_b.is_empty() {
         let b = run(&budgets_b, false);
         println!("unsliced {:?} -> kind {} consumed {} main(done {}, error {}, pending {})", budgets_b, b.0, b.1, b.2, b.3, b.4);
+        println!("progress sliced {:?} unsliced {:?}", a.6, b.6);
         if a.0 == 2 || a.0 == 0 || a.1 == b.1 {
             assert!(a.0 == b.0 && a.1 == b.1, "slicing the budget changed the outcome");
+            assert!(a.6 == b.6, "slicing the budget changed which thread executed how many instructions");
         } else {
             assert!(b.1 >= a.1, "the unsliced run stopped earlier than the sliced run");
         }
@@ -302,7 +323,7 @@ def replay(prop, key, desc, model, nthreads_hint=3):
         return None, None, "no model"
     script = model.get("script", {})
     nthreads = 3
-    length = 10
+    length = 12
     rows = []
     for t in range(3):
         row = []
